@@ -17,6 +17,8 @@ JV = "forsys.virtual_edges.join_two_vertices"
 
 def run(ctx):
     repo = ctx.repo
+    rules.borrow(ctx, "C09", funcs=["forsys.virtual_edges.join_two_vertices"], minimum=6, because="contracting a two-point border interface re-points every edge and cell of both ends")
+    rules.borrow(ctx, "C08", funcs=["forsys.virtual_edges.create_edges_new"], minimum=3, because="resampling works interface by interface: each interface is listed exactly once")
     f = repo.func(GM)
     ctx.touch(f)
     s = sym.summarize(repo, f.qualname)
@@ -155,7 +157,7 @@ def run(ctx):
             return T.phi(t[1], a, b) if a is not None and b is not None else None
         return None
     dels = [e for e in sj.events if e.kind == "del" and e.key is not None and unattr(e.key, "id") is not None
-            and e.node.lineno > news[0].node.lineno]
+            and sj.pos(e) > sj.pos(news[0])]
     if len(dels) != 2:
         raise AnalysisError(f"join_two_vertices: expected the two merged vertices to be deleted by id, found {len(dels)} deletions - re-bind the anchor")
     v0, v1 = unattr(dels[0].key, "id"), unattr(dels[1].key, "id")
